@@ -311,6 +311,21 @@ def witnesses(pm: ProgramModel, ctx: Ctx) -> None:
                   f"{what}: equal before the edit, unequal after it",
                   bad=f"{what}: before the edit a==b is {r0}; after editing b in place a==b is {r1}, b==a is {r2} "
                       f"(a value computed before the edit is still used)")
+    for wkey, (t1, t2) in {
+            "sum-operand": (lambda: mb.node(op("GREATER"), mb.node(op("SUM"), mb.node("Price")), mb.node(10)),
+                            lambda: mb.node(op("GREATER"), mb.node(op("SUM"), mb.node("Cost")), mb.node(10))),
+            "avg-second-operand": (lambda: mb.node(op("LOWER"), mb.node(op("AVG"), mb.node("Price"), mb.node("Memory")), mb.node(5)),
+                                   lambda: mb.node(op("LOWER"), mb.node(op("AVG"), mb.node("Price"), mb.node("Disk")), mb.node(5))),
+            "len-operand": (lambda: mb.node(op("EQUALS"), mb.node(op("LEN"), mb.node("Label")), mb.node(3)),
+                            lambda: mb.node(op("EQUALS"), mb.node(op("LEN"), mb.node("Vendor")), mb.node(3))),
+            "arithmetic-operand": (lambda: mb.node(op("GREATER"), mb.node(op("ADD"), mb.node("A.x"), mb.node(1)), mb.node(2)),
+                                   lambda: mb.node(op("GREATER"), mb.node(op("ADD"), mb.node("A.y"), mb.node(1)), mb.node(2))),
+            "number-operand": (lambda: mb.node(op("GREATER"), mb.node("A.x"), mb.node(2)),
+                               lambda: mb.node(op("GREATER"), mb.node("A.x"), mb.node(3)))}.items():
+        must_differ(f"Constraint:{wkey}", mb.constraint("k", t1()), mb.constraint("k", t2()),
+                    f"constraints differing in one operand ({wkey})", cw)
+        must_equal("C20-WITNESS", f"Constraint:same:{wkey}", mb.constraint("k", t1()), mb.constraint("k2", t1()),
+                   f"two constraints with the same expression ({wkey})", cw)
     k1 = mb.constraint("k", mb.node(op("IMPLIES"), mb.node("A"), mb.node("B")))
     k2 = mb.constraint("k", mb.node(op("IMPLIES"), mb.node("A"), mb.node("B")))
     edited_after_use("Constraint:operator", k1, k2,
